@@ -106,6 +106,38 @@ Theorem C29_no_forward_partial : FRspec -> forall ops id x,
 Proof. exact no_forward. Qed.
 Print Assumptions C29_no_forward_partial.
 
+(* ---------------- field / method lookup (xreflect/lookup.go FieldByName, MethodByName, caches) ----------------
+   The executable model and the proofs are those of property C09 (coq/C09: breadth-first searches with the visited-depth
+   map over embedding graphs, pointer cycles and diamonds included); they are restated here because lookup.go is part of
+   the code C29 answers for.  The correspondence run of C29 evaluates C09.Model on the lookups observed on the declared
+   type families of harness/cmd/c29 part E (cases_lookup_*.v). *)
+From Verif Require C09.Model C09.Proof C09.ProofM C09.Proof2.
+
+(* FieldByName returns nothing iff the name is a field at no depth of the unfolded embedding tree; otherwise the number
+   of fields at the SHALLOWEST depth where it occurs (duplicates through diamonds counted) and the index path of the first *)
+Theorem C29_field_lookup_shallowest : forall e q root fuel r,
+  C09.Model.FieldByName_uncached fuel e root q = Some r ->
+  (C09.Model.fr_count r = 0%Z /\ C09.Model.fr_index r = [] /\ forall n, C09.Proof.occ_f e q n root = []) \/
+  (exists d, (forall d', (d' < d)%nat -> C09.Proof.occ_f e q d' root = []) /\ C09.Proof.occ_f e q d root <> [] /\
+             C09.Model.fr_count r = Z.of_nat (length (C09.Proof.occ_f e q d root)) /\
+             hd_error (C09.Proof.occ_f e q d root) = Some (C09.Model.fr_index r)).
+Proof. exact C09.Proof.field_bfs_shallowest. Qed.
+Print Assumptions C29_field_lookup_shallowest.
+
+Theorem C29_method_lookup_shallowest : forall e q root fuel r,
+  C09.Model.MethodByName_uncached fuel e root q = Some r ->
+  (C09.Model.mr_count r = 0%Z /\ C09.Model.mr_findex r = [] /\ forall n, C09.Proof.occ_m e q n root = []) \/
+  (exists d, (forall d', (d' < d)%nat -> C09.Proof.occ_m e q d' root = []) /\ C09.Proof.occ_m e q d root <> [] /\
+             C09.ProofM.mres_matches r (C09.Proof.occ_m e q d root)).
+Proof. exact C09.ProofM.method_bfs_shallowest. Qed.
+Print Assumptions C29_method_lookup_shallowest.
+
+(* the per-type caches are transparent over every history of lookups and method declarations *)
+Theorem C29_lookup_cache_transparent : forall e ops,
+  snd (C09.Model.run (C09.Model.init e) ops) = C09.Proof2.urun e ops.
+Proof. exact C09.Proof2.cache_transparent. Qed.
+Print Assumptions C29_lookup_cache_transparent.
+
 (* ---------------- non-vacuity ---------------- *)
 (* *int three ways, []*int twice, a func and a struct built from them and again from reflect *)
 Definition ex_ops : list op :=
